@@ -141,4 +141,14 @@ impl<'c, W, R, T> RootEvaluationScope<'c, W, R, T> {
     }
 }
 
+#[cfg(feature = "verif")]
+impl<'c, W, R, T> RootEvaluationScope<'c, W, R, T> {
+    pub(crate) fn verif_scope(&self) -> &Rc<RuntimeScope<'static, W, R, T>> {
+        &self.scope
+    }
+    pub(crate) fn verif_runtime(&self) -> &RTCell<W, R, T> {
+        &self.runtime
+    }
+}
+
 pub type RuntimeResult<T> = Result<T, RuntimeViolation>;
